@@ -32,6 +32,33 @@ pub fn run_field<T: SwiftField + serde::Serialize>(content: &str, variant: Optio
     }
 }
 
+pub fn run_field_json<T: SwiftField + serde::Serialize + serde::de::DeserializeOwned>(j: &Value) -> Value {
+    match serde_json::from_value::<T>(j.clone()) {
+        Ok(f) => json!({"ok": true, "swift": f.to_swift_string()}),
+        Err(e) => json!({"ok": false, "de_error": e.to_string()}),
+    }
+}
+
+/// MT content -> value -> JSON -> value: is the value unchanged by the JSON round trip?
+pub fn run_codec_roundtrip<T: SwiftField + serde::Serialize + serde::de::DeserializeOwned + std::fmt::Debug>(content: &str) -> Value {
+    let v = match T::parse(content) {
+        Ok(v) => v,
+        Err(e) => return json!({"ok": false, "parse_error": e.to_string()}),
+    };
+    let j = match serde_json::to_value(&v) {
+        Ok(j) => j,
+        Err(e) => return json!({"ok": false, "ser_error": e.to_string()}),
+    };
+    match serde_json::from_value::<T>(j.clone()) {
+        Ok(v2) => {
+            let same = format!("{:?}", v) == format!("{:?}", v2);
+            json!({"ok": true, "same": same, "json": j, "before": format!("{:?}", v), "after": format!("{:?}", v2),
+                   "swift_before": v.to_swift_string(), "swift_after": v2.to_swift_string()})
+        }
+        Err(e) => json!({"ok": true, "same": false, "json": j, "de_error": e.to_string()}),
+    }
+}
+
 pub fn run_block4<T: SwiftMessageBody + serde::Serialize>(text: &str) -> Value {
     match T::parse_from_block4(text) {
         Ok(m) => {
@@ -179,6 +206,30 @@ pub fn run(item: &Value) -> Value {
             let variant = item["variant"].as_str();
             crate::api_gen::field(ty, content, variant).unwrap_or(json!({"error": "unknown field type"}))
         }
+        "header_json" => {
+            let j = &item["json"];
+            match ty {
+                "UserHeader" => match serde_json::from_value::<swift_mt_message::headers::UserHeader>(j.clone()) {
+                    Ok(h) => {
+                        let text = h.to_string();
+                        let back = swift_mt_message::headers::UserHeader::parse(&text).map(|h2| h2 == h).unwrap_or(false);
+                        json!({"ok": true, "text": text, "reparse_equal": back})
+                    }
+                    Err(e) => json!({"ok": false, "de_error": e.to_string()}),
+                },
+                "Trailer" => match serde_json::from_value::<swift_mt_message::headers::Trailer>(j.clone()) {
+                    Ok(h) => {
+                        let text = h.to_string();
+                        let back = swift_mt_message::headers::Trailer::parse(&text).map(|h2| h2 == h).unwrap_or(false);
+                        json!({"ok": true, "text": text, "reparse_equal": back})
+                    }
+                    Err(e) => json!({"ok": false, "de_error": e.to_string()}),
+                },
+                _ => json!({"error": "unknown header type"}),
+            }
+        }
+        "field_json" => crate::api_gen::field_json(ty, &item["json"]).unwrap_or(json!({"error": "unknown field type"})),
+        "codec_roundtrip" => crate::api_gen::codec_roundtrip(ty, item["content"].as_str().unwrap_or("")).unwrap_or(json!({"error": "unknown field type"})),
         "block4" => crate::api_gen::block4(ty, item["text"].as_str().unwrap_or("")).unwrap_or(json!({"error": "unknown message type"})),
         "validate" => crate::api_gen::validate(ty, item["text"].as_str().unwrap_or("")).unwrap_or(json!({"error": "unknown message type"})),
         "classify_message_json" => crate::api_gen::classify_message_json(ty, &item["json"], &item["user_header"]).unwrap_or(json!({"error": "unknown message type"})),
